@@ -137,9 +137,19 @@ func readRecordHeaderV4(reader *checksumByteReader) (payloadSizeUncompressed uin
 		return 0, 0, false, err
 	}
 
+	checksumStart := reader.Count()
 	expectedChecksum, err := binary.ReadUvarint(reader)
 	if err != nil {
 		return 0, 0, false, err
+	}
+
+	// The checksum covers the bytes of all other header fields, but not its own encoding. A varint that is longer than
+	// necessary (a flipped continuation bit that pulls the first payload byte into the header) decodes to the same
+	// number, so only the shortest encoding, which is what the writer produces, is accepted.
+	var canonical [binary.MaxVarintLen64]byte
+	if reader.Count()-checksumStart != binary.PutUvarint(canonical[:], expectedChecksum) {
+		return 0, 0, false,
+			fmt.Errorf("%w: checksum [%x] is not stored in its shortest encoding", HeaderChecksumMismatchErr, expectedChecksum)
 	}
 
 	if actualChecksum != expectedChecksum {
